@@ -94,6 +94,10 @@ mutant('c03-final-reads-stale-generation', 'C03', RL,
        "    rule = f'{p} := {p}_ifr{ignition_steps - 3}();'\n",
        'result taken from the upper iterated generation instead of the final step')
 
+mutant('c03-functor-partial-iteration', 'C03', FU,
+       "    for sibling in self.IterationSiblings(covered):\n",
+       "    for sibling in []:\n",
+       'a functor copies only the members of an iteration that the applicant reads (the repaired defect)')
 # ------------------------------------------------------------------ C13
 mutant('c13-closure-set-order', 'C13', UN,
        "          for d in iteration['predicates']:\n",
@@ -107,6 +111,14 @@ mutant('c13-toomuch-sticky-cpp', 'C13', CPP,
        "  } else {\n    // The incantation works for the program that contains it, not for\n    // whatever is parsed by the same process afterwards.\n    TOO_MUCH = \"too much\";\n  }\n",
        "  }\n",
        'C++ parser: experimental syntax switch never switched off (the repaired defect)')
+mutant('c13-cover-order', 'C13', FU,
+       "    for p in self.rules_of:\n      args = self.args_of.get(p, ())\n",
+       "    for p, args in self.args_of.items():\n",
+       'recursive components analysed in the order of a dict filled in set order (the repaired defect)')
+mutant('c13-semigroup-order', 'C13', UN,
+       "    needed_udfs = list(sorted(needed_semigroups)) + needed_udfs\n",
+       "    needed_udfs = list(needed_semigroups) + needed_udfs\n",
+       'semigroup definitions emitted in set order (the repaired defect)')
 mutant('c13-prefix-order', 'C13', PA,
        "    for p in sorted(DefinedPredicates(rules) | MadePredicates(rules),\n                    key=lambda p: (-len(p), p)):\n",
        "    for p in DefinedPredicates(rules) | MadePredicates(rules):\n",
